@@ -118,3 +118,41 @@ def minor_methods(M, src):
     for m in re.finditer(r"pub fn (from_mat\w*_minor)\(m: (\w+), i: usize, j: usize\)", src):
         out.append((m.group(1), m.group(2)))
     return out
+
+
+# ---------------------------------------------------------------------------------------------
+# E2-R: product laws
+# ---------------------------------------------------------------------------------------------
+def e2_kernels():
+    import sys, os
+    sys.path.insert(0, os.path.join(os.path.dirname(os.path.dirname(os.path.abspath(__file__))), "e2"))
+    from run import K
+    import ref as R
+    ks = []
+    for M, n, rd, vrd, vwr, elem in (("Mat2", 2, "m2", "v2", "wv2", 4), ("Mat3", 3, "m3", "v3", "wv3", 4), ("Mat3A", 3, "m3a", "v3a", "wv3a", 4), ("Mat4", 4, "m4", "v4", "wv4", 4),
+                                     ("DMat2", 2, "dm2", "dv2", "wdv2", 8), ("DMat3", 3, "dm3", "dv3", "wdv3", 8), ("DMat4", 4, "dm4", "dv4", "wdv4", 8)):
+        nn = n * n
+        def ob(x, o, h, n=n, nn=nn, M=M):
+            A, B, v = R.cols(x, 0, n, n), R.cols(x, nn, n, n), x[2 * nn:2 * nn + n]
+            want = [R.sum_([v[c] * A[c][r] for c in range(n)]) for r in range(n)]
+            return R.eq_all(h, o[0:n], want, f"{M}*v == sum_c v[c] col(c)") + [(f"(A*B)*v == A*(B*v) [{j}]", h.eq(o[n + j], o[2 * n + j])) for j in range(n)]
+        ks.append(K(f"{M.lower()}_laws", 2 * nn + n, 3 * n, f"let a = {rd}(i, 0); let b = {rd}(i, {nn}); let v = {vrd}(i, {2 * nn}); {vwr}(o, 0, a * v); {vwr}(o, {n}, (a * b) * v); {vwr}(o, {2 * n}, a * (b * v));",
+                    ob, elem=elem, site=f"{M}::product laws", desc=f"{M}: M*v is the combination of the columns weighted by v (column vectors, from the left); (A*B)*v == A*(B*v)", timeout=120))
+    A3 = lambda x, b: R.cols(x, b, 4, 3)
+    hom = lambda a: [a[0] + [0], a[1] + [0], a[2] + [0], a[3] + [1]]
+    ks.append(K("affine3a_mul_mat4", 28, 32, "let a = a3(i, 0); let m = m4(i, 12); wm4(o, 0, a * m); wm4(o, 16, m * a);",
+                lambda x, o, h: R.eq_all(h, o[:16], R.flat(R.matmul(hom(A3(x, 0)), R.cols(x, 12, 4, 4))), "Affine3A*Mat4") + R.eq_all(h, o[16:], R.flat(R.matmul(R.cols(x, 12, 4, 4), hom(A3(x, 0)))), "Mat4*Affine3A"),
+                site="Affine3A*Mat4", desc="mixed Affine3A x Mat4 products are the homogeneous products for EVERY Mat4 (incl. projective ones)"))
+    ks.append(K("affine3a_point", 15, 6, "let a = a3(i, 0); let p = v3(i, 12); wv3(o, 0, a.transform_point3(p)); wv3(o, 3, a.transform_vector3(p));",
+                lambda x, o, h: R.eq_all(h, o[0:3], R.add(R.matvec(A3(x, 0)[:3], x[12:15]), A3(x, 0)[3]), "transform_point3 == linear*p + translation") +
+                                R.eq_all(h, o[3:6], R.matvec(A3(x, 0)[:3], x[12:15]), "transform_vector3 ignores translation"), site="Affine3A::transform"))
+    A2 = lambda x, b: R.cols(x, b, 3, 2)
+    ks.append(K("affine2_point", 8, 4, "let a = a2(i, 0); let p = v2(i, 6); wv2(o, 0, a.transform_point2(p)); wv2(o, 2, a.transform_vector2(p));",
+                lambda x, o, h: R.eq_all(h, o[0:2], R.add(R.matvec(A2(x, 0)[:2], x[6:8]), A2(x, 0)[2]), "transform_point2 == linear*p + translation") +
+                                R.eq_all(h, o[2:4], R.matvec(A2(x, 0)[:2], x[6:8]), "transform_vector2 ignores translation"), site="Affine2::transform"))
+    return ks
+
+
+def e2_run(tier, seed):
+    from e2glue import e2_run as _e2
+    return _e2("C06", e2_kernels(), tier, seed, cfgs=("sse2", "scalar"))
